@@ -325,3 +325,48 @@ def expand_helper_calls(facts, facts_list):
             continue
         out.append(f)
     return out
+
+
+def append_sites(fn, wrappers=None, sd=None):
+    """(container DeclRefExpr, appended expression, guard facts, location) of every append to a local container in fn:
+    `X.push_back(e)`, a call of an append wrapper (name -> (index of container, index of element)), or `P->push_back(e)` through a
+    local pointer P that only ever holds `&X` of local containers - then one site per such assignment, under the guards of the
+    assignment together with those of the append (`group = &noteOffs; .. group->push_back(events[i])`)."""
+    from .core import calls_in, callee_name, short, strip, walk, assign_parts_raw
+    stmts = list(fn.cfg.stmts())
+    ptr_defs = {}          # pointer local -> [(target DeclRefExpr or None, b, st)]
+    for b, j, st in stmts:
+        s_ = st['s']
+        cands = []
+        if s_.get('k') == 'DeclStmt':
+            for v in s_['decls']:
+                if ((v.get('t') or {}).get('p')) and v.get('init') is not None:
+                    cands.append((v['id'], v['init']))
+        for x in walk(s_):
+            ap = assign_parts_raw(x) if isinstance(x, dict) else None
+            if ap and strip(ap[0]).get('k') == 'DeclRefExpr' and ((strip(ap[0]).get('t') or {}).get('p')):
+                cands.append((strip(ap[0])['id'], ap[1] if ap[2] == '=' else None))
+        for vid, rhs in cands:
+            r = strip(rhs) if rhs is not None else None
+            tgt = None
+            if r is not None and r.get('k') == 'UnaryOperator' and r.get('op') == '&' and strip(r['e']).get('k') == 'DeclRefExpr':
+                tgt = strip(r['e'])
+            ptr_defs.setdefault(vid, []).append((tgt, b, st))
+    for b, j, st in stmts:
+        for x in calls_in(st['s']):
+            tgt = src = None
+            if short(callee_name(x)) == 'push_back' and x.get('obj') is not None and strip(x['obj']).get('k') == 'DeclRefExpr' and x.get('a'):
+                tgt, src = strip(x['obj']), x['a'][0]
+            elif wrappers and callee_name(x) in wrappers and x.get('obj') is None:
+                pi, qi = wrappers[callee_name(x)]
+                if len(x.get('a') or []) > max(pi, qi) and strip(x['a'][pi]).get('k') == 'DeclRefExpr':
+                    tgt, src = strip(x['a'][pi]), x['a'][qi]
+            if tgt is None:
+                continue
+            gf = guard_facts(fn, b, st, sd=sd) if sd else guard_facts(fn, b, st)
+            defs = ptr_defs.get(tgt.get('id'))
+            if defs and all(d_[0] is not None for d_ in defs):
+                for t2, b2, st2 in defs:
+                    yield t2, src, (guard_facts(fn, b2, st2, sd=sd) if sd else guard_facts(fn, b2, st2)) + gf, st2['loc']
+            else:
+                yield tgt, src, gf, st['loc']
